@@ -5,6 +5,7 @@ import (
 	"fmt"
 
 	"github.com/mutagen-io/mutagen/pkg/selection"
+	"github.com/mutagen-io/mutagen/pkg/synchronization"
 	"github.com/mutagen-io/mutagen/pkg/url"
 )
 
@@ -42,6 +43,17 @@ func (s *CreationSpecification) ensureValid() error {
 	// Verify that the beta-specific configuration is valid.
 	if err := s.ConfigurationBeta.EnsureValid(true); err != nil {
 		return fmt.Errorf("invalid beta-specific configuration: %w", err)
+	}
+
+	// Verify that the effective (merged) endpoint configurations are valid.
+	// Endpoint-specific configurations are validated above without knowledge
+	// of the session configuration, so settings whose validity depends on it
+	// (e.g. a default file mode, which depends on the permissions mode) can
+	// only be checked fully after merging.
+	if err := synchronization.MergeConfigurations(s.Configuration, s.ConfigurationAlpha).EnsureValid(false); err != nil {
+		return fmt.Errorf("invalid effective alpha configuration: %w", err)
+	} else if err = synchronization.MergeConfigurations(s.Configuration, s.ConfigurationBeta).EnsureValid(false); err != nil {
+		return fmt.Errorf("invalid effective beta configuration: %w", err)
 	}
 
 	// Verify that the name is valid.
